@@ -18,10 +18,45 @@ def _server_run(params, residue):
     sim = scen.Sim("c12s-%d-%s" % (params["idx"], residue[0]), params["seed"])
     try:
         k = sim.k
-        srv = sim.server()
+        extra = []
+        if params.get("ns_auto"):
+            # iodined -n auto asks resolver1.opendns.com for its own address at start-up (up to three attempts).  The resolver's
+            # first datagram is useless (not a response) but as long as a complete one; the second breaks off behind its question
+            # although it announces an answer; the third is complete.  Which address the server then hands out as its own
+            # (glue of NS answers) is a function of those datagrams, not of what an earlier one left in the buffer.
+            from simnet import kernel as _kernel
+
+            class OpenDNS(_kernel.Actor):
+                def __init__(self, ip, script):
+                    self.ip, self.n, self.script = ip, 0, script
+
+                def on_datagram(self, src, dst, data):
+                    try:
+                        m = proto.parse_msg(data)
+                        labels, qt = m.qd[0][0], m.qd[0][1]
+                    except (proto.ParseError, IndexError):
+                        return
+                    kind = self.script[min(self.n, len(self.script) - 1)]
+                    self.n += 1
+                    full = proto.build_answer_raw(m.id, labels, qt, [(1, bytes([198, 51, 100, 7 + self.n]))])
+                    if kind == "notresponse":
+                        d = full[:2] + bytes([full[2] & 0x7F]) + full[3:]
+                    elif kind == "cut":
+                        d = full[:12 + len(proto.encode_name(labels)) + 4 + params["ns_auto_cut"]]
+                    elif kind == "silent":
+                        return
+                    else:
+                        d = proto.build_answer_raw(m.id, labels, qt, [(1, bytes([192, 0, 2, 55]))])
+                    self.kernel.transmit(dst, src, d)
+            k.add_actor("208.67.222.222", OpenDNS("208.67.222.222", params["ns_auto"]))
+            extra = ["-n", "auto"]
+        srv = sim.server(extra=extra, residue=(residue[1], residue[2]))
         if not srv.alive():
             return None
-        srv.residue = (residue[1], residue[2])
+        if params.get("ns_auto"):
+            sim.run_until(lambda: srv.tun_fd is not None or not srv.alive(), 15 * US)
+            if not srv.alive():
+                return [("alive", False, sim.health(srv)), ("stderr", k.stderr_text(srv, 300))]
         dl = proto.labels_from_dotted(sim.domain.encode())
         A = mclient.ModelClient("10.53.2.1", (scen.SERVER_IP, 53), sim.domain, sim.password, random.Random(rng.getrandbits(32)),
                                 qtype=rng.choice(list(proto.QTYPES.values())))
@@ -84,6 +119,9 @@ def _server_run(params, residue):
             src = rng.choice([A, Bc])
             k.transmit((src.ip, src.sport), (scen.SERVER_IP, 53), d)
             k.run(k.now + 3000)
+        if params.get("ns_auto"):
+            A.ask(list(dl), proto.T_NS, timeout_us=300000)       # (the glue record shows which address the server took for its own)
+            A.ask([b"ns"] + list(dl), proto.T_A, timeout_us=300000)
         k.run(k.now + 200000)
         trace = []
         rcvd = {}
@@ -257,6 +295,12 @@ def run(ctx):
                   "n": rng.randint(20, 60), "p": rng.choice([0.2, 0.5]), "qtype": rng.choice([None, "NULL", "TXT", "CNAME", "MX", "SRV", "A"]),
                   "raw": i % 8 == 3}
                  for i in range(n)]
+        for p_ in plist:
+            if p_["side"] == "server" and (p_["idx"] // 2) % 6 == 1:
+                p_["ns_auto"] = rng.choice([["notresponse", "cut", "full"], ["notresponse", "cut", "cut"], ["cut", "notresponse", "cut"], ["full"],
+                                            ["silent", "notresponse", "cut"]])
+                p_["ns_auto_cut"] = rng.choice([0, 0, 0, 1, 2, 5, 11])
+                p_["n"] = min(p_["n"], 25)
         if ctx.replay and "params" in (ctx.replay.get("witness") or {}):
             plist = [ctx.replay["witness"]["params"]]
         sysres = core.Result()
